@@ -162,6 +162,10 @@ pub fn post_check<S: Sut>(map: &S, model: &Model, before: &St<S>, op: Op, uni: &
         out.push(v);
     }
     if fatal {
+        // the node table is not a tree any more: do the mutable traversals hand out aliasing references?
+        if let Some(v) = map.alias_probe() {
+            out.push(v);
+        }
         return (out, None);
     }
     // C16 allocation discipline
